@@ -91,6 +91,23 @@ def run_model_job(pid, job, tier, seed):
         p = dict(p)
         p["bounds"] = "%d roots (%s), depth %d (levels), is_legal sweep level %d, clock setters %s" % (len(roots), mc.get("roots", "curated"), cfgj["depth"], cfgj["sweep"], "on" if cfgj["setters"] else "off")
         job["params"][tier] = p
+    if "parse_mc" in p:
+        pm = p["parse_mc"]
+        roots = root_records("curated", seed, pm.get("bases", 2))
+        conv = {"H": "K", "A": "Q", "h": "k", "a": "q"}
+        bases = [{"cp": [ord(c) for c in r], "sh": 1} for r in roots]
+        for r in roots:
+            f = r.split(" ")
+            if all(c in conv or c == "-" for c in f[2]):
+                g = f[:]
+                g[2] = "".join(conv.get(c, c) for c in f[2])
+                bases.append({"cp": [ord(c) for c in " ".join(g)], "sh": 0})
+        path = os.path.join(wd, "mccfg.json")
+        json.dump({"bases": bases, "alphabet": pm["alphabet"]}, open(path, "w"))
+        env["MCCFG"] = path
+        p = dict(p)
+        p["bounds"] = "%d canonical records (%d Shredder, %d plain FEN twins) x every single-character deletion, replacement and insertion over a %d-symbol alphabet, truncations and extensions x the entry points of each notation" % (len(bases), len(roots), len(bases) - len(roots), len(pm["alphabet"]))
+        job["params"][tier] = p
     if "invariants" in job:
         lines = ["SPECIFICATION Spec"] + ["CONSTRAINT " + c for c in job.get("constraints", [])]
         lines += ["INVARIANT " + i for i in job["invariants"]] + ["PROPERTY " + q for q in job.get("properties", [])] + ["CHECK_DEADLOCK FALSE"]
